@@ -92,6 +92,59 @@ fn check_view(
     if content(v.slice(..)).1 != want {
         fail("slice", format!("{name}: slice(..) wrong"));
     }
+    // every combination of bound kinds (tuples of Bound reach arms no range syntax produces)
+    use std::ops::Bound;
+    for i in 0..=n {
+        for j in i..=n {
+            for sk in 0..3 {
+                for ek in 0..3 {
+                    // (start kind, end kind): 0 Included, 1 Excluded, 2 Unbounded; skip unrepresentable ones
+                    let sb: Bound<usize> = match sk {
+                        0 => Bound::Included(i),
+                        1 => {
+                            if i == 0 {
+                                continue;
+                            }
+                            Bound::Excluded(i - 1)
+                        }
+                        _ => {
+                            if i != 0 {
+                                continue;
+                            }
+                            Bound::Unbounded
+                        }
+                    };
+                    let eb: Bound<usize> = match ek {
+                        0 => {
+                            if j == 0 {
+                                continue;
+                            }
+                            Bound::Included(j - 1)
+                        }
+                        1 => Bound::Excluded(j),
+                        _ => {
+                            if j != n {
+                                continue;
+                            }
+                            Bound::Unbounded
+                        }
+                    };
+                    if matches!(eb, Bound::Included(_)) && j <= i {
+                        continue;
+                    }
+                    let sb32: Bound<u32> = match sb { Bound::Included(x) => Bound::Included(x as u32), Bound::Excluded(x) => Bound::Excluded(x as u32), Bound::Unbounded => Bound::Unbounded };
+                    let eb32: Bound<u32> = match eb { Bound::Included(x) => Bound::Included(x as u32), Bound::Excluded(x) => Bound::Excluded(x as u32), Bound::Unbounded => Bound::Unbounded };
+                    let w = &want[i..j];
+                    for (rn, sv) in [("slice((Bound,Bound))", v.slice((sb, eb))), ("slice_u32((Bound,Bound))", v.slice_u32((sb32, eb32)))] {
+                        let (a, g) = content(sv);
+                        if a != want_ascii || g != w {
+                            fail("slice_bounds", format!("{name}: {rn} with start kind {sk} end kind {ek} i={i} j={j} wrong"));
+                        }
+                    }
+                }
+            }
+        }
+    }
 }
 
 fn check_owned(name: &str, o: &Utf32String, want_ascii: bool, want: &[char], text: &[char], acc: &mut Acc) {
@@ -128,6 +181,25 @@ fn check_owned(name: &str, o: &Utf32String, want_ascii: bool, want: &[char], tex
                 let (a, g) = content(sv);
                 if a != want_ascii || g != w {
                     fail("slice", format!("{name}: owned slice with i={i} j={j} wrong"));
+                }
+            }
+            // tuples of Bound: excluded starts and every end kind
+            use std::ops::Bound;
+            if i > 0 {
+                let mut bviews: Vec<Utf32Str<'_>> = vec![o.slice((Bound::Excluded(i - 1), Bound::Excluded(j))), o.slice_u32((Bound::Excluded(i as u32 - 1), Bound::Excluded(j as u32)))];
+                if j > i {
+                    bviews.push(o.slice((Bound::Excluded(i - 1), Bound::Included(j - 1))));
+                    bviews.push(o.slice_u32((Bound::Excluded(i as u32 - 1), Bound::Included(j as u32 - 1))));
+                }
+                if j == n {
+                    bviews.push(o.slice((Bound::Excluded(i - 1), Bound::Unbounded)));
+                    bviews.push(o.slice_u32((Bound::Excluded(i as u32 - 1), Bound::Unbounded)));
+                }
+                for sv in bviews {
+                    let (a, g) = content(sv);
+                    if a != want_ascii || g != w {
+                        fail("slice_bounds", format!("{name}: owned slice with an excluded start bound i={i} j={j} wrong"));
+                    }
                 }
             }
         }
